@@ -105,6 +105,7 @@ func checkC04(p *Program, r *Reporter) {
 			}
 		}
 	}
+	searchConvention(p, r)
 	// (c) wrap arithmetic copies
 	e := sharedE3(p, r)
 	var wrapFns []*ssa.Function
@@ -181,6 +182,7 @@ func checkC02(p *Program, r *Reporter) {
 	deliverySiblings(p, r)
 	// (e) "no segment yet" sentinels
 	sentinelGuards(p, r)
+	searchConvention(p, r)
 }
 
 // sentinelGuards: the timeline generator marks "no segment available yet" by storing -1 into
@@ -464,5 +466,55 @@ func timelineWindow(p *Program, r *Reporter) {
 				}
 			}
 		}
+	}
+}
+
+// searchConvention: segments are half-open intervals [start, end): an instant equal to a segment's end belongs to the
+// next segment. Every binary search for "the first segment that ends after t" (a sort.Search closure comparing a
+// segment's EndTime) must therefore use the strict form EndTime > t; EndTime >= t selects the previous segment for
+// instants exactly on a boundary (wrong content and availability one segment early for boundary-aligned tracks).
+func searchConvention(p *Program, r *Reporter) {
+	r.Rule("E5-SEARCHCONV", "binary searches over segment end times use the half-open convention (EndTime > t)", 1)
+	n := 0
+	for _, fn := range livesimFuncs(p) {
+		for _, b := range fn.Blocks {
+			for _, in := range b.Instrs {
+				c, ok := isCallTo(in, "sort.Search")
+				if !ok {
+					continue
+				}
+				clo := unwrapFuncValue(c.Call.Args[1])
+				if clo == nil {
+					continue
+				}
+				for _, cb := range clo.Blocks {
+					ret, ok := cb.Instrs[len(cb.Instrs)-1].(*ssa.Return)
+					if !ok || len(ret.Results) != 1 {
+						continue
+					}
+					bo, ok := ret.Results[0].(*ssa.BinOp)
+					if !ok {
+						continue
+					}
+					fx, okx := loadedField(bo.X)
+					fy, oky := loadedField(bo.Y)
+					var strict bool
+					switch {
+					case okx && fx == "app.Segment.EndTime":
+						strict = bo.Op == token.GTR
+					case oky && fy == "app.Segment.EndTime":
+						strict = bo.Op == token.LSS
+					default:
+						continue
+					}
+					n++
+					r.Decide(strict, "E5-SEARCHCONV", shortFn(fn), "sort.Search:EndTime", p.pos(bo.Pos()), "strict comparison: an instant on a boundary belongs to the next segment",
+						"the search predicate "+bo.String()+" is not the strict EndTime > t: an instant exactly on a segment boundary is mapped to the previous segment", nil)
+				}
+			}
+		}
+	}
+	if n == 0 {
+		r.Broken("no binary search over segment end times found")
 	}
 }
